@@ -166,3 +166,186 @@ Proof.
   induction b3 as [|z b3 IH]; [reflexivity|].
   cbn [map flat_map app]. rewrite IH. reflexivity.
 Qed.
+
+(* ------------------------------------------------------------------------ *)
+(* the odometer enumerates the Cartesian product in lexicographic order      *)
+(* ------------------------------------------------------------------------ *)
+Section Odometer.
+Context {A : Type} (d : A).
+
+(* counters only: the successor of a counter vector, with the overflow flag *)
+Fixpoint succ (ls : list (list A)) (cs : list nat) : bool * list nat :=
+  match ls, cs with
+  | l :: ls', c :: cs' =>
+      let (carry, cs'') := succ ls' cs' in
+      if carry then
+        if Nat.ltb (S c) (length l) then (false, S c :: cs'') else (true, O :: cs'')
+      else (false, c :: cs'')
+  | _, _ => (true, [])
+  end.
+
+Fixpoint state (ls : list (list A)) (cs : list nat) : list (nat * A) :=
+  match ls, cs with
+  | l :: ls', c :: cs' => (c, nth c l d) :: state ls' cs'
+  | _, _ => []
+  end.
+
+Definition zeros_of (ls : list (list A)) : list nat := map (fun _ => O) ls.
+
+Fixpoint cvalid (ls : list (list A)) (cs : list nat) : Prop :=
+  match ls, cs with
+  | [], [] => True
+  | l :: ls', c :: cs' => (c < length l)%nat /\ cvalid ls' cs'
+  | _, _ => False
+  end.
+
+(* what remains to be enumerated from counter vector cs (inclusive) *)
+Fixpoint suffix (ls : list (list A)) (cs : list nat) : list (list A) :=
+  match ls, cs with
+  | l :: ls', c :: cs' =>
+      map (cons (nth c l d)) (suffix ls' cs')
+      ++ flat_map (fun x => map (cons x) (product ls')) (skipn (S c) l)
+  | _, _ => [[]]
+  end.
+
+Lemma suffix_cons : forall l ls c cs,
+  suffix (l :: ls) (c :: cs) =
+  map (cons (nth c l d)) (suffix ls cs)
+  ++ flat_map (fun x => map (cons x) (product ls)) (skipn (S c) l).
+Proof. reflexivity. Qed.
+
+Lemma state_init : forall ls, state ls (zeros_of ls) = odo_init d ls.
+Proof. induction ls; simpl; auto. rewrite IHls. reflexivity. Qed.
+
+Lemma odo_incr_state : forall ls cs, length cs = length ls ->
+  odo_incr d ls (state ls cs) = (fst (succ ls cs), state ls (snd (succ ls cs))).
+Proof.
+  induction ls as [|l ls IH]; intros cs Hl; destruct cs as [|c cs]; simpl in *; try discriminate; auto.
+  rewrite IH by lia. destruct (succ ls cs) as [carry cs'']. simpl.
+  destruct carry; auto. destruct (Nat.ltb (S c) (length l)); reflexivity.
+Qed.
+
+Lemma succ_length : forall ls cs, length cs = length ls -> length (snd (succ ls cs)) = length ls.
+Proof.
+  induction ls as [|l ls IH]; intros cs Hl; destruct cs as [|c cs]; simpl in *; try discriminate; auto.
+  specialize (IH cs ltac:(lia)). destruct (succ ls cs) as [carry cs'']. simpl in *.
+  destruct carry; [destruct (Nat.ltb (S c) (length l))|]; simpl; lia.
+Qed.
+
+Lemma cvalid_length : forall ls cs, cvalid ls cs -> length cs = length ls.
+Proof.
+  induction ls; destruct cs; simpl; intros; try tauto. destruct H. f_equal. auto.
+Qed.
+
+Lemma skipn_nth_cons : forall (l : list A) n, (n < length l)%nat ->
+  skipn n l = nth n l d :: skipn (S n) l.
+Proof.
+  induction l; intros n Hn; simpl in Hn; [lia|]. destruct n; [reflexivity|].
+  simpl. apply IHl. lia.
+Qed.
+
+Lemma suffix_zeros : forall ls, cvalid ls (zeros_of ls) -> suffix ls (zeros_of ls) = product ls.
+Proof.
+  induction ls as [|l ls IH]; simpl; intros H; auto. destruct H as [Hl H].
+  rewrite IH by auto. destruct l as [|a l]; [simpl in Hl; lia|]. reflexivity.
+Qed.
+
+(* one step: the head of the remaining enumeration is the current selection, the
+   rest is the enumeration from the successor; on overflow nothing remains *)
+Lemma suffix_step : forall ls cs, cvalid ls cs ->
+  let r := succ ls cs in
+  suffix ls cs = map snd (state ls cs) :: (if fst r then [] else suffix ls (snd r))
+  /\ (fst r = true -> snd r = zeros_of ls)
+  /\ cvalid ls (snd r).
+Proof.
+  induction ls as [|l ls IH]; intros cs Hv; destruct cs as [|c cs]; simpl in Hv; try tauto.
+  - simpl. auto.
+  - destruct Hv as [Hc Hv]. specialize (IH cs Hv). cbv zeta in IH.
+    destruct IH as (IH1 & IH2 & IH3).
+    cbv zeta. rewrite suffix_cons. cbn [succ state map snd fst zeros_of cvalid].
+    destruct (succ ls cs) as [carry cs''] eqn:E. cbn [fst snd] in *.
+    destruct carry.
+    + specialize (IH2 eq_refl). subst cs''.
+      destruct (Nat.ltb (S c) (length l)) eqn:Hlt; cbn [fst snd].
+      * apply Nat.ltb_lt in Hlt. split; [|split; [discriminate|split; auto]].
+        rewrite IH1. rewrite suffix_cons.
+        rewrite (skipn_nth_cons l (S c)) by lia.
+        rewrite suffix_zeros by auto. reflexivity.
+      * apply Nat.ltb_ge in Hlt. split; [|split; [reflexivity|split; [lia|auto]]].
+        rewrite IH1. rewrite skipn_all2 by lia. reflexivity.
+    + cbn [fst snd]. split; [|split; [discriminate|split; auto]].
+      rewrite IH1. rewrite suffix_cons. reflexivity.
+Qed.
+
+Lemma suffix_nonempty : forall ls cs, cvalid ls cs -> (1 <= length (suffix ls cs))%nat.
+Proof.
+  intros. destruct (suffix_step ls cs H) as (E & _). rewrite E. simpl. lia.
+Qed.
+
+Lemma odo_loop_suffix : forall ls fuel cs, cvalid ls cs ->
+  (length (suffix ls cs) <= fuel)%nat ->
+  odo_loop d ls fuel (state ls cs) = suffix ls cs.
+Proof.
+  induction fuel as [|f IH]; intros cs Hv Hf.
+  - pose proof (suffix_nonempty ls cs Hv). lia.
+  - simpl. rewrite odo_incr_state by (apply cvalid_length; auto).
+    destruct (suffix_step ls cs Hv) as (E & Hz & Hv').
+    rewrite E in Hf |- *. simpl in Hf. f_equal.
+    destruct (fst (succ ls cs)); auto.
+    apply IH; auto. lia.
+Qed.
+
+Lemma product_length : forall ls : list (list A), length (product ls) = total_len ls.
+Proof.
+  induction ls as [|l ls IH]; simpl; auto.
+  unfold total_len in *. simpl. rewrite <- IH. clear IH.
+  induction l; simpl; auto. rewrite app_length, map_length, IHl. reflexivity.
+Qed.
+
+Lemma zeros_valid_or_empty : forall ls : list (list A),
+  cvalid ls (zeros_of ls) \/ total_len ls = O.
+Proof.
+  induction ls as [|l ls IH]; simpl; auto.
+  destruct IH as [IH|IH].
+  - destruct l as [|a l]; [right; reflexivity|]. left. split; auto. simpl. lia.
+  - right. unfold total_len in *. simpl. rewrite IH. lia.
+Qed.
+
+Lemma odo_enum_product_l : forall ls : list (list A), odo_enum d ls = product ls.
+Proof.
+  intros ls. unfold odo_enum. destruct (zeros_valid_or_empty ls) as [Hv|He].
+  - rewrite <- state_init. rewrite odo_loop_suffix; auto.
+    + apply suffix_zeros; auto.
+    + rewrite suffix_zeros by auto. rewrite product_length. lia.
+  - rewrite He. simpl. pose proof (product_length ls) as Hp. rewrite He in Hp.
+    destruct (product ls); [reflexivity|discriminate].
+Qed.
+End Odometer.
+
+(* ml_nonzero_nd = the Kronecker pattern in data-layout order, any number of levels *)
+Lemma nonzero_nd_l : forall bidx bs lt,
+  ml_nonzero_nd bidx bs lt = filter (keep lt) (kron_pattern bs bidx).
+Proof. intros. unfold ml_nonzero_nd, kron_pattern. rewrite odo_enum_product_l. reflexivity. Qed.
+
+Lemma kron_pattern_1 : forall m n b, kron_pattern [(m, n)] [b] = b.
+Proof.
+  intros. unfold kron_pattern. simpl product.
+  induction b as [|[i j] b IH]; [reflexivity|]. simpl. rewrite IH. reflexivity.
+Qed.
+
+(* MLStructure.nonzero for every number of levels *)
+Lemma nonzero_spec_l : forall bs bidx lt, length bs = length bidx ->
+  (lt = true -> length bidx <> 1%nat) ->
+  nonzero bs bidx lt = Some (filter (keep lt) (kron_pattern bs bidx)).
+Proof.
+  intros bs bidx lt Hl H1.
+  destruct bidx as [|b1 [|b2 [|b3 [|b4 rest]]]]; simpl in Hl.
+  - unfold nonzero. rewrite nonzero_nd_l. reflexivity.
+  - destruct bs as [|[m n] [|? ?]]; try discriminate. unfold nonzero.
+    destruct lt. + exfalso. apply H1; auto. + rewrite kron_pattern_1, keep_false. reflexivity.
+  - destruct bs as [|[m1 n1] [|[m2 n2] [|? ?]]]; try discriminate. unfold nonzero.
+    rewrite nonzero_2d_l. reflexivity.
+  - destruct bs as [|[m1 n1] [|[m2 n2] [|[m3 n3] [|? ?]]]]; try discriminate. unfold nonzero.
+    rewrite nonzero_3d_l. reflexivity.
+  - unfold nonzero. rewrite nonzero_nd_l. reflexivity.
+Qed.
